@@ -27,7 +27,7 @@ def make_monitors():
 
 
 def cfg_fn(rng):
-    return gen.random_config(rng, p3d=0.15)
+    return gen.random_config(rng, p3d=0.15, ellipse3d=True)
 
 
 WEIGHTS = {"add_node": 6, "add_edge": 6, "paint": 6, "swap": 2.5, "update_attrs": 2,
@@ -35,12 +35,15 @@ WEIGHTS = {"add_node": 6, "add_edge": 6, "paint": 6, "swap": 2.5, "update_attrs"
 
 
 def plan(tier, seed):
-    return common.session_plan(PROP, tier, seed, quick=2400, thorough=40000)
+    # + the repository's own test-suite, unedited, as one more workload under the same monitor
+    return common.session_plan(PROP, tier, seed, quick=2400, thorough=40000) + [common.pytest_spec()]
 
 
 def run_shard(spec):
+    if spec.get("kind") == "pytest":
+        return common.run_pytest_shard(spec, PROP)
     return common.run_sessions(spec, PROP, make_monitors, cfg_fn, nsteps=(15, 35),
-                               weights=WEIGHTS, refusal_rate=2.5)
+                               weights=WEIGHTS, refusal_rate=2.5, history_share=0.25)
 
 
 def floors(tier):
@@ -51,4 +54,6 @@ def floors(tier):
 
 
 def replay(doc):
+    if doc.get("kind") == "pytest":
+        return common.replay_pytest(doc, PROP)
     return common.replay_sessions(doc, make_monitors)
